@@ -50,6 +50,10 @@ def check(repo: Repo, R) -> None:
     R.run(shared.owner_only_writes, repo, shared.Retag(R, lambda r, k: "C11.4-order-preserved" if k.startswith(F_IMPORT) else None,
                                                       "the importer rebuilds an instance's `conns` (in port-list order, say): re-exported instances list their connections in another order than the package had, and the connected objects keep no record of the port"),
           "C04.2-owner-only-writes", why="")
+    R.run(scalar_parameters_both_spellings, repo, R)
+    from . import c13 as _c13
+    R.run(_c13.value_dispatch, repo, shared.Retag(R, lambda r: "C11.2-field-coverage",
+                                                 "a value written to another variant of ParamValue than its kind's (a plain string as `string_value`) is read back as a kind that is exported differently: a Literal / Enum / Decimal parameter of an external module changes from `literal` to `string_value` in the round trip"))
     R.floor("C11.1-inverse-tables", 6)
     R.floor("C11.2-field-coverage", 10)
     R.floor("C11.3-variant-coverage", 4)
@@ -377,3 +381,31 @@ def absent_means_none(repo: Repo, R):
         R.check(wraps, rule, key_of(fi, f"literal-stays-literal::{ast.unparse(spread[0])[:40] if spread else how}"), fi.at(c),
                 f"`{how}`: string values destined for Scalar parameters are imported as Literals (scalar conversion leaves those alone): {wraps}",
                 why="R(r=h.Literal('1.5')) comes back as the number 1.5: the re-exported package holds `prefixed` where the original holds `literal`")
+
+
+def scalar_parameters_both_spellings(repo: Repo, R):
+    """Which parameters of a primitive are Scalars is decided by their declared type: required ones are declared `Scalar`,
+    optional ones `Optional[Scalar]` — the helper that restores Literals recognises both."""
+    rule = "C11.2-field-coverage"
+    fl = repo.func(F_IMPORT, "literal_params")
+    tests = []
+    for n in ast.walk(fl.node):
+        if isinstance(n, ast.comprehension):
+            for f_ in n.ifs:
+                if "dtype" in ast.unparse(f_):
+                    tests.append(f_)
+        if isinstance(n, ast.If) and "dtype" in ast.unparse(n.test):
+            tests.append(n.test)
+    if not tests:
+        raise AnalysisError(f"idiom-unknown: {fl.site} does not select parameters by their declared type")
+    ok = False
+    shown = ast.unparse(tests[0])
+    for t in tests:
+        names = set()
+        if isinstance(t, ast.Compare) and len(t.ops) == 1 and isinstance(t.ops[0], ast.In) and isinstance(t.comparators[0], (ast.Tuple, ast.List, ast.Set)):
+            names = {ast.unparse(e) for e in t.comparators[0].elts}
+        elif isinstance(t, ast.BoolOp) and isinstance(t.op, ast.Or):
+            names = {ast.unparse(v.comparators[0]) for v in t.values if isinstance(v, ast.Compare) and len(v.ops) == 1 and isinstance(v.ops[0], (ast.Eq, ast.Is))}
+        ok = ok or {"Scalar", "Optional[Scalar]"} <= names
+    R.check(ok, rule, key_of(fl, "required-and-optional-scalars"), fl.site, f"literal_params selects the parameters declared `Scalar` and those declared `Optional[Scalar]`: {ok} (`{shown[:80]}`)",
+            why="R(r=Literal('100')): `r` is a required, plain-Scalar parameter — missed by a test for Optional[..] arguments only, its text comes back as the number 100 and is re-exported as `prefixed`")
